@@ -25,7 +25,11 @@
 (* per section (plain / SHF_COMPRESSED with the right, a too big or a too    *)
 (* small declared size, or an unassigned type / .zdebug framing with good   *)
 (* or bad magic, size (both ways), length; .zdebug for some sections only,  *)
-(* as the GNU tools write it when the others do not shrink), where the debug *)
+(* as the GNU tools write it when the others do not shrink; plan "mix": an   *)
+(* encoding chosen per section, cfg.mix in {plain, gabi, z}^5 over info,     *)
+(* abbrev, str, line, debug_sup - every non-uniform assignment of the first  *)
+(* four, so that each naming / flag occurs next to each other one and in     *)
+(* particular .debug_info is plain while others are not), where the debug    *)
 (* sections live (the opened file, or a separate file behind .gnu_debuglink *)
 (* with a right or wrong CRC), a supplementary link (.gnu_debugaltlink,      *)
 (* .debug_sup with is_supplementary 0 or 1), whether a stream loader exists *)
@@ -35,6 +39,13 @@
 (*   CheckLink, FollowDebugLink (CRC compare, then the linked file with      *)
 (*   follow_links = TRUE), ReadSection (with the name selection .debug_X /   *)
 (*   .zdebug_X per section), InflateGabi, InflateLegacy, LoadSupplementary.  *)
+(* Then the client holds the loaded object and may ASK again, in any order   *)
+(* and repeatedly (action Ask, at most MaxQueries times): "name" - which     *)
+(* supplementary file do the link sections name (parse_debugsupinfo), "sup" *)
+(* - load the supplementary file for this object (get_supplementary_        *)
+(* dwarfinfo), "view" - walk the debugging information of the object again. *)
+(* Each answer is computed by the machine from the bytes it loaded; it must  *)
+(* not depend on what was asked before (AnswersStable).                      *)
 (* It works on the bytes of the sections the writer produced (compression   *)
 (* headers, framing, link records are parsed, stored-block streams are      *)
 (* inflated).  Crc32 of a file and inflation of streams other than stored   *)
@@ -49,6 +60,13 @@
 (*                   .eh_frame) <=> what the writer meant                    *)
 (*   BadCrcRejected, BadSizeRejected, BadFramingRejected                     *)
 (*   RoundTrips      Inflate(Stored(p)) = p, link records parse back         *)
+(*   AnswersStable   every answer to a repeated / reordered question equals  *)
+(*                   the declarative answer DeclAnswer(cfg, q): a function   *)
+(*                   of the configuration, not of the history; a reloaded    *)
+(*                   supplementary file is S again (SupAgain)                *)
+(*   MixCovers       (ASSUME) the per-section plans contain, for every pair  *)
+(*                   of distinct encodings (a, b) and every section x other  *)
+(*                   than info, a file with info stored as a and x as b      *)
 (*   Progress        a variant function decreases with every step; with     *)
 (*                   deadlock checking on and `Done` the only stuttering    *)
 (*                   state, every behaviour ends in "done" (termination)    *)
@@ -69,10 +87,14 @@ CONSTANTS ClsLeAll,      \* class / byte-order pairs of the encoding family
           ClsLeLinks,    \* ... of the link families
           VerFmts,       \* DWARF version / format pairs of the encoding family
           Plans,         \* encoding plans of the encoding family
-          Families       \* subset of {"enc", "nodwarf", "dlink", "sup", "chain"}
+          Families,      \* subset of {"enc", "nodwarf", "dlink", "sup", "chain"}
+          Wide,          \* BOOLEAN: per-section plans in every DWARF flavour (else one per class/byte order); questions after every
+                         \* encoding of the supplementary file (else after its plain encoding)
+          MaxQueries     \* how many questions the client asks the loaded object (< 8; 0: none)
 
-VARIABLES cfg, files, pc, cur, fl, ix, buf, got, err
-vars == <<cfg, files, pc, cur, fl, ix, buf, got, err>>
+VARIABLES cfg, files, pc, cur, fl, ix, buf, got, err,
+          qs, ans        \* the questions the client asked the loaded object so far, and the answers it got
+vars == <<cfg, files, pc, cur, fl, ix, buf, got, err, qs, ans>>
 
 (* ------------------------------- names --------------------------------- *)
 DotDebugInfo == <<46, 100, 101, 98, 117, 103, 95, 105, 110, 102, 111>>                       \* ".debug_info"
@@ -203,12 +225,14 @@ NoPayload(c) == [l \in LogSet |-> IF l = "eh_frame" /\ c.eh THEN Have(EhFrame(c)
 ShfCompressed == 2048                           \* gABI: SHF_COMPRESSED 0x800
 ChdrRec(t, size, align) == [ch_type |-> N(t), ch_reserved |-> Z, ch_size |-> N(size), ch_addralign |-> N(align)]
 DbgSec(name, flags, data) == Sec(name, N(1), N(flags), Z, data, N(Len(data)), Z, Z, N(1), Z)
-AllPlans == {"plain", "gabi", "gabi_blk", "gabi_info", "gabi_str", "gabi_badsize", "gabi_smallsize", "gabi_badtype", "z", "z_blk", "z_mixed", "z_badmagic",
+AllPlans == {"mix", "plain", "gabi", "gabi_blk", "gabi_info", "gabi_str", "gabi_badsize", "gabi_smallsize", "gabi_badtype", "z", "z_blk", "z_mixed", "z_badmagic",
              "z_badsize", "z_smallsize", "z_short"}
 BlkOf(plan) == IF plan \in {"gabi_blk", "z_blk"} THEN 16 ELSE 65535
 \* the encoding of logical section l under a plan; link records and the exception frames follow their own rules below
-EncOf(plan, l) ==
+MixIx(l) == CASE l = "info" -> 1 [] l = "abbrev" -> 2 [] l = "str" -> 3 [] l = "line" -> 4 [] l = "debug_sup" -> 5
+EncOf(plan, l, c) ==
   CASE plan \in {"plain", "none"} -> "plain"
+    [] plan = "mix" -> c.mix[MixIx(l)]
     [] plan \in {"gabi", "gabi_blk"} -> "gabi"
     [] plan = "gabi_info" -> IF l = "info" THEN "gabi" ELSE "plain"
     [] plan = "gabi_str" -> IF l = "str" THEN "gabi" ELSE "plain"
@@ -223,7 +247,7 @@ EncOf(plan, l) ==
     [] plan = "z_smallsize" -> IF l = "str" THEN "z_smallsize" ELSE "z"
     [] plan = "z_short" -> IF l = "abbrev" THEN "z_short" ELSE "z"
 \* .eh_frame is loaded into memory and never compressed; .gnu_debugaltlink is not a .debug_ name, the legacy convention leaves it alone
-EncOfSec(plan, l) == IF l \in {"eh_frame", "altlink"} THEN "plain" ELSE EncOf(plan, l)
+EncOfSec(plan, l, c) == IF l \in {"eh_frame", "altlink"} THEN "plain" ELSE EncOf(plan, l, c)
 Declared(enc, n) == IF enc \in {"gabi_badsize", "z_badsize"} THEN n + 1 ELSE IF enc \in {"gabi_smallsize", "z_smallsize"} THEN n - 1 ELSE n
 EncSec(l, data, enc, c, blk) ==
   LET name == PlainName(l) IN
@@ -237,7 +261,7 @@ EncSec(l, data, enc, c, blk) ==
 \* the sections of a file that carries payload `pay` under `plan`
 SecsOf(pay, plan, c) ==
   LET pres == SelectSeq(Logical, LAMBDA l : pay[l].p) IN
-  [k \in 1..Len(pres) |-> EncSec(pres[k], pay[pres[k]].b, EncOfSec(plan, pres[k]), c, BlkOf(plan))]
+  [k \in 1..Len(pres) |-> EncSec(pres[k], pay[pres[k]].b, EncOfSec(plan, pres[k], c), c, BlkOf(plan))]
 LinkSec(c) == DbgSec(DotGnuDebuglink, 0, DebugLinkRec(DbgFileName(c), IF c.dl = "ok" THEN CrcTok ELSE BadTok))
 File(secs) == [present |-> TRUE, secs |-> secs]
 NoFile == [present |-> FALSE, secs |-> <<>>]
@@ -257,13 +281,26 @@ TwoClsLe == {<<64, TRUE>>, <<32, FALSE>>}
 VerFmt2 == {<<4, 32>>, <<5, 64>>}
 VerFmt4 == {<<3, 32>>, <<4, 32>>, <<4, 64>>, <<5, 64>>, <<5, 32>>}
 C0 == [fam |-> "", cls |-> 64, le |-> TRUE, ver |-> 4, fmt |-> 32, line |-> TRUE, eh |-> TRUE, plan |-> "plain", dl |-> "none", home |-> "main",
-       sup |-> "none", supplan |-> "plain", loader |-> FALSE, follow |-> TRUE]
+       sup |-> "none", supplan |-> "plain", loader |-> FALSE, follow |-> TRUE, mix |-> <<>>]
 \* the link families tie version/format to the container so that both DWARF flavours occur without another factor
 VerOf(cl, sup) == IF sup = "debug_sup" THEN 5 ELSE IF sup = "altlink" THEN 4 ELSE IF cl[1] = 64 THEN 5 ELSE 4
 FmtOf(cl) == IF cl[1] = 64 /\ cl[2] THEN 64 ELSE 32
 EncConfigs == {[C0 EXCEPT !.fam = "enc", !.cls = cl[1], !.le = cl[2], !.ver = vf[1], !.fmt = vf[2], !.eh = eh, !.line = ln, !.plan = pl, !.follow = fo] :
-                 cl \in ClsLeAll, vf \in VerFmts, eh \in BOOLEAN, ln \in {TRUE}, pl \in Plans, fo \in BOOLEAN}
+                 cl \in ClsLeAll, vf \in VerFmts, eh \in BOOLEAN, ln \in {TRUE}, pl \in Plans \ {"mix"}, fo \in BOOLEAN}
               \cup {[C0 EXCEPT !.fam = "enc", !.cls = cl[1], !.le = cl[2], !.line = FALSE, !.eh = FALSE, !.plan = pl] : cl \in ClsLeAll, pl \in Plans \cap {"plain", "gabi", "z"}}
+\* per-section plans: every assignment of {plain, gabi, z} to info, abbrev, str, line that is not uniform (those are the
+\* plans "plain", "gabi", "z"); the link section .debug_sup rotates with the section it follows in the file
+Encs3 == {"plain", "gabi", "z"}
+Mixes == {<<a, b, c, d, "plain">> : a \in Encs3, b \in Encs3, c \in Encs3, d \in Encs3} \ {<<e, e, e, e, "plain">> : e \in Encs3}
+MixCovers == \A a \in Encs3 : \A b \in Encs3 \ {a} : \A x \in 2..4 : \E m \in Mixes : m[1] = a /\ m[x] = b /\ \A y \in (2..4) \ {x} : m[y] = a
+ASSUME MixCovers
+\* ... in the link family: the link section .debug_sup against the rest
+SupMixes == {<<a, a, a, a, b>> : a \in Encs3, b \in Encs3} \ {<<e, e, e, e, e>> : e \in Encs3}
+MixVerFmts(cl) == IF Wide THEN VerFmts ELSE {<<VerOf(cl, "none"), FmtOf(cl)>>}
+MixConfigs == UNION {{[C0 EXCEPT !.fam = "enc", !.cls = cl[1], !.le = cl[2], !.ver = vf[1], !.fmt = vf[2], !.plan = "mix", !.mix = m] :
+                        vf \in MixVerFmts(cl), m \in Mixes} : cl \in ClsLeAll}
+SupMixConfigs == {[C0 EXCEPT !.fam = "sup", !.cls = cl[1], !.le = cl[2], !.ver = 5, !.fmt = FmtOf(cl), !.plan = "mix", !.mix = m, !.sup = "debug_sup",
+                             !.loader = lo, !.follow = fo] : cl \in ClsLeLinks, m \in SupMixes, lo \in BOOLEAN, fo \in BOOLEAN}
 NoDwarfConfigs == {[C0 EXCEPT !.fam = "nodwarf", !.cls = cl[1], !.le = cl[2], !.eh = eh, !.plan = "none", !.follow = fo] : cl \in ClsLeAll, eh \in BOOLEAN, fo \in BOOLEAN}
 DlinkConfigs == {[C0 EXCEPT !.fam = "dlink", !.cls = cl[1], !.le = cl[2], !.ver = VerOf(cl, "none"), !.fmt = FmtOf(cl), !.eh = eh, !.plan = pl,
                             !.home = hd[1], !.dl = hd[2], !.loader = lo, !.follow = fo] :
@@ -281,7 +318,8 @@ SupConfigs == {[C0 EXCEPT !.fam = "sup", !.cls = cl[1], !.le = cl[2], !.ver = Ve
 ChainConfigs == {[C0 EXCEPT !.fam = "chain", !.cls = cl[1], !.le = cl[2], !.ver = VerOf(cl, su), !.fmt = FmtOf(cl), !.plan = pl, !.home = "linked", !.dl = "ok",
                             !.sup = su, !.loader = lo, !.follow = fo] :
                    cl \in ClsLeLinks, su \in {"altlink", "debug_sup"}, pl \in {"plain", "z"}, lo \in BOOLEAN, fo \in BOOLEAN}
-Configs == (IF "enc" \in Families THEN EncConfigs ELSE {}) \cup (IF "nodwarf" \in Families THEN NoDwarfConfigs ELSE {})
+Configs == (IF "enc" \in Families /\ "mix" \in Plans THEN MixConfigs ELSE {}) \cup (IF "sup" \in Families /\ "mix" \in Plans THEN SupMixConfigs ELSE {}) \cup
+           (IF "enc" \in Families THEN EncConfigs ELSE {}) \cup (IF "nodwarf" \in Families THEN NoDwarfConfigs ELSE {})
            \cup (IF "dlink" \in Families THEN DlinkConfigs ELSE {}) \cup (IF "sup" \in Families THEN SupConfigs ELSE {})
            \cup (IF "chain" \in Families THEN ChainConfigs ELSE {})
 
@@ -307,6 +345,7 @@ SupNameOf(g) == IF g["debug_sup"].p /\ ParseDebugSup(g["debug_sup"].b, cfg.le).i
 Init == /\ cfg \in Configs
         /\ files = [main |-> NoFile, linked |-> NoFile, sup |-> NoFile]
         /\ pc = "build" /\ cur = "main" /\ fl = cfg.follow /\ ix = 0 /\ buf = <<>> /\ got = Got0 /\ err = ""
+        /\ qs = <<>> /\ ans = <<>>
 Build == /\ pc = "build" /\ files' = FilesOf(cfg) /\ pc' = "open"
          /\ UNCHANGED <<cfg, cur, fl, ix, buf, got, err>>
 Fail(kind) == err' = kind /\ pc' = "done" /\ UNCHANGED <<cfg, files, cur, fl, ix, buf, got>>
@@ -364,15 +403,39 @@ LoadSupplementary ==
           IF to = "nofile" \/ ~files[to].present THEN Fail("nofile")
           ELSE cur' = to /\ pc' = "read" /\ ix' = 1 /\ UNCHANGED <<cfg, files, fl, buf, got, err>>
      ELSE pc' = "done" /\ UNCHANGED <<cfg, files, cur, fl, ix, buf, got, err>>
+DebugOnly(g) == [l \in LogSet \ {"eh_frame"} |-> g[l]]
+\* ---- the client asks the loaded object again
+Queries == {"name", "sup", "view"}
+\* a file's logical sections, read to completion (the valid encodings only: this is what ReadSection / Inflate* compute step by step)
+LoadAll(f) == [l \in LogSet |->
+                LET n == PhysName(f, l) IN
+                IF n = <<>> THEN Absent
+                ELSE LET s == SecNamed(f, n) IN
+                     IF Compressed(s) THEN Have(Inflate(SubSeq(s.data, SizeOf(ChdrF(cfg.cls), cfg.cls) + 1, Len(s.data))))
+                     ELSE IF IsZName(n) THEN Have(Inflate(SubSeq(s.data, 13, Len(s.data))))
+                     ELSE Have(s.data)]
+Loaded == pc = "done" /\ err = "" /\ got.home["info"].p
+\* which configurations are questioned: those with link sections (and a few without, whose answers are all "none")
+QueryOn(c) == \/ c.fam \in {"sup", "chain"} /\ (Wide \/ c.supplan = "plain")
+              \/ c.fam = "enc" /\ ~c.line /\ c.plan \in {"plain", "gabi", "z"}
+\* the machine's answer, from the bytes it loaded
+Answer(q) ==
+  LET sn == SupNameOf(got.home) IN
+  CASE q = "name" -> [q |-> q, p |-> sn.p, b |-> sn.b]
+    [] q = "sup" -> [q |-> q, p |-> sn.p /\ cfg.loader /\ Resolve(cfg, sn.b) = "sup" /\ files.sup.present, b |-> <<>>]
+    [] q = "view" -> [q |-> q, p |-> DebugOnly(got.home) = DebugOnly(PayloadP(cfg)), b |-> <<>>]
+Ask == /\ Loaded /\ QueryOn(cfg) /\ Len(qs) < MaxQueries
+       /\ \E q \in Queries : qs' = Append(qs, q) /\ ans' = Append(ans, Answer(q))
+       /\ UNCHANGED <<cfg, files, pc, cur, fl, ix, buf, got, err>>
 \* final states stutter, so that deadlock checking reports every other stuck state (the constraint Emit is therefore evaluated
 \* twice per final state: the driver keys the lines)
 Done == pc = "done" /\ UNCHANGED vars
-Next == Build \/ CheckLink \/ FollowDebugLink \/ ReadSection \/ InflateGabi \/ InflateLegacy \/ LoadSupplementary \/ Done
+Load == Build \/ CheckLink \/ FollowDebugLink \/ ReadSection \/ InflateGabi \/ InflateLegacy \/ LoadSupplementary
+Next == (Load /\ UNCHANGED <<qs, ans>>) \/ Ask \/ Done
 Spec == Init /\ [][Next]_vars
 
 (* ------------------------------- the view ------------------------------ *)
 \* what was loaded, in the property's terms
-DebugOnly(g) == [l \in LogSet \ {"eh_frame"} |-> g[l]]
 SupLoaded == cur = "sup" /\ pc = "done" /\ err = ""
 Outcome == IF err # "" THEN "error:" \o err
            ELSE IF ~got.home["info"].p THEN "nodwarf"
@@ -429,9 +492,19 @@ RoundTrips ==
           q.filename = DbgFileName(cfg) /\ q.crc = tok /\ q.end = Len(r) /\ Len(r) % 4 = 0
     /\ ParseAltLink(AltLinkRec(SupFileName)).filename = SupFileName
     /\ \A s \in {0, 1} : LET q == ParseDebugSup(DebugSupRec(cfg, s, SupFileName), cfg.le) IN q.version = 5 /\ q.issup = s /\ q.filename = SupFileName
+\* questions: the answers are a function of the configuration, whatever was asked before
+HasSupLink(c) == c.sup \in {"altlink", "debug_sup"}
+DeclAnswer(c, q) == CASE q = "name" -> [q |-> q, p |-> HasSupLink(c), b |-> IF HasSupLink(c) THEN SupFileName ELSE <<>>]
+                      [] q = "sup" -> [q |-> q, p |-> HasSupLink(c) /\ c.loader, b |-> <<>>]
+                      [] q = "view" -> [q |-> q, p |-> TRUE, b |-> <<>>]
+AnswersStable == /\ Len(ans) = Len(qs)
+                 /\ \A i \in 1..Len(qs) : ans[i] = DeclAnswer(cfg, qs[i])
+                 /\ (qs # <<>> => Loaded /\ QueryOn(cfg))
+SupAgain == (\E i \in 1..Len(ans) : ans[i].q = "sup" /\ ans[i].p) => LoadAll(files.sup) = PayloadS(cfg)
 \* termination: a variant function that every step decreases (the files form a chain main > linked > sup)
 Rank(r) == CASE r = "main" -> 2 [] r = "linked" -> 1 [] r = "sup" -> 0
-Measure == Rank(cur) * 64 + (CASE pc = "build" -> 63 [] pc = "open" -> 60 [] pc = "crc" -> 59 [] pc = "read" -> 50 - 4 * ix [] pc = "gabi" -> 49 - 4 * ix
+ASSUME MaxQueries \in 0..7
+Measure == (MaxQueries - Len(qs)) + 8 * Rank(cur) * 64 + 8 * (CASE pc = "build" -> 63 [] pc = "open" -> 60 [] pc = "crc" -> 59 [] pc = "read" -> 50 - 4 * ix [] pc = "gabi" -> 49 - 4 * ix
                                [] pc = "legacy" -> 48 - 4 * ix [] pc = "links" -> 2 [] pc = "done" -> 0)
 Progress == [][Measure' < Measure]_vars
 MeasureNat == Measure >= 0
@@ -439,7 +512,9 @@ MeasureNat == Measure >= 0
 (* ------------------------------- emission ------------------------------ *)
 Bit(b) == IF b THEN 1 ELSE 0
 \* key of the images a configuration uses (everything but loader / follow), and of the plain reference of the same payload
-ImgKey(c) == <<c.cls, Bit(c.le), c.ver, c.fmt, Bit(c.line), Bit(c.eh), c.plan, c.dl, c.home, c.sup, c.supplan>>
+ImgKey(c) == <<c.cls, Bit(c.le), c.ver, c.fmt, Bit(c.line), Bit(c.eh), c.plan, c.dl, c.home, c.sup, c.supplan, c.mix>>
+\* class of a plan for reports: a per-section plan is named after how .debug_info is stored
+PlanTag(c) == IF c.plan = "mix" THEN "mix.info-" \o c.mix[1] ELSE c.plan
 RefKey(c, suploaded) == <<c.cls, Bit(c.le), c.ver, c.fmt, Bit(c.line), Bit(c.eh), c.sup, Bit(suploaded)>>
 IsRef(c) == c.plan = "plain" /\ c.dl = "none" /\ c.supplan = "plain" /\ c.home = "main"
 CanonForImages(c) == c.follow /\ (c.loader = (c.fam \notin {"enc", "nodwarf"} /\ ~(c.fam = "dlink" /\ c.dl = "none")))
@@ -450,7 +525,7 @@ ImgLine(role) ==
       \* where the CRC-32 of the linked file goes: [offset, width]; empty when the file has no link
       crcslot |-> IF lk = {} THEN <<>> ELSE LET j == CHOOSE j \in lk : TRUE IN <<SecOff(im, j) + Len(files[role].secs[j].data) - 4, 4>>]
 CaseLine ==
-  [k |-> "case", fam |-> cfg.fam, img |-> ImgKey(cfg), cls |-> cfg.cls, le |-> cfg.le, ver |-> cfg.ver, fmt |-> cfg.fmt, plan |-> cfg.plan,
+  [k |-> "case", fam |-> cfg.fam, img |-> ImgKey(cfg), cls |-> cfg.cls, le |-> cfg.le, ver |-> cfg.ver, fmt |-> cfg.fmt, plan |-> cfg.plan, plantag |-> PlanTag(cfg), mix |-> cfg.mix,
    dl |-> cfg.dl, home |-> cfg.home, sup |-> cfg.sup, supplan |-> cfg.supplan, loader |-> cfg.loader, follow |-> cfg.follow,
    isref |-> IsRef(cfg), refkey |-> RefKey(cfg, SupLoaded),
    \* the view
@@ -466,11 +541,18 @@ ViewLine ==
   [k |-> "view", refkey |-> RefKey(cfg, SupLoaded), units |-> <<UnitView(MainUnit(cfg), 0)>>,
    altform |-> AltFormOf(cfg.sup),
    altval |-> IF SupLoaded THEN [k |-> "bytes", b |-> CStrAt(SupStrSec, SupStrOff).s] ELSE [k |-> "num", v |-> N(SupStrOff)]]
+\* one line per maximal sequence of questions (its prefixes are part of it)
+QueryLine ==
+  [k |-> "query", fam |-> cfg.fam, img |-> ImgKey(cfg), le |-> cfg.le, plantag |-> PlanTag(cfg), dl |-> cfg.dl, sup |-> cfg.sup, crc_ok |-> cfg.dl = "ok",
+   loader |-> cfg.loader, follow |-> cfg.follow, refkey |-> RefKey(cfg, SupLoaded), suprefkey |-> RefKey(cfg, TRUE),
+   files |-> [linked |-> IF files.linked.present THEN DbgFileName(cfg) ELSE <<>>, sup |-> IF files.sup.present THEN SupFileName ELSE <<>>],
+   qs |-> qs, ans |-> ans]
 Emit ==
   pc = "done" =>
-    /\ CSVWrite("%1$s", <<ToJson(CaseLine)>>, IOEnv.OUT)
-    /\ (CanonForImages(cfg) => \A role \in {"main", "linked", "sup"} : files[role].present => CSVWrite("%1$s", <<ToJson(ImgLine(role))>>, IOEnv.OUT))
-    /\ (IsRef(cfg) /\ cfg.sup # "is_sup" /\ cfg.plan # "none" => CSVWrite("%1$s", <<ToJson(ViewLine)>>, IOEnv.OUT))
+    /\ (qs = <<>> => CSVWrite("%1$s", <<ToJson(CaseLine)>>, IOEnv.OUT))
+    /\ (MaxQueries > 0 /\ Len(qs) = MaxQueries => CSVWrite("%1$s", <<ToJson(QueryLine)>>, IOEnv.OUT))
+    /\ (qs = <<>> /\ CanonForImages(cfg) => \A role \in {"main", "linked", "sup"} : files[role].present => CSVWrite("%1$s", <<ToJson(ImgLine(role))>>, IOEnv.OUT))
+    /\ (qs = <<>> /\ IsRef(cfg) /\ cfg.sup # "is_sup" /\ cfg.plan # "none" => CSVWrite("%1$s", <<ToJson(ViewLine)>>, IOEnv.OUT))
 
 \* layout tables for the harness-side rewriter of corpus files: [field, offset, width] per record and class (written once)
 OffsOf(F, cls, base) == [i \in 1..Len(F) |-> <<F[i][1], base + SumR([j \in 1..Len(F) |-> Width(F[j][2], cls)], 1, i - 1), Width(F[i][2], cls)>>]
